@@ -211,7 +211,9 @@ class TcpConnection(object):
 
         if eventType & POLL_EVENT_TYPE.WRITE:
             self.__trySendBuffer()
-            if self.__state == CONNECTION_STATE.DISCONNECTED:
+            if self.__state == CONNECTION_STATE.DISCONNECTED or self.__socket is not sock:
+                # disconnected; the callback may already have dialled again (possibly on the same
+                # descriptor number): the subscription of that new attempt must not be touched
                 return
             event = POLL_EVENT_TYPE.READ | POLL_EVENT_TYPE.ERROR
             if len(self.__writeBuffer) > 0:
@@ -220,7 +222,7 @@ class TcpConnection(object):
 
         if eventType & POLL_EVENT_TYPE.READ:
             self.__tryReadBuffer()
-            if self.__state == CONNECTION_STATE.DISCONNECTED:
+            if self.__state == CONNECTION_STATE.DISCONNECTED or self.__socket is not sock:
                 return
 
             while True:
@@ -229,7 +231,7 @@ class TcpConnection(object):
                     break
                 if self.__onMessageReceived is not None:
                     self.__onMessageReceived(message)
-                if self.__state == CONNECTION_STATE.DISCONNECTED:
+                if self.__state == CONNECTION_STATE.DISCONNECTED or self.__socket is not sock:
                     return
 
     def __processConnectionTimeout(self):
